@@ -95,6 +95,11 @@ def _id(ck, p, byk):
         nz = [(bi, t) for bi, t in nz_all if ("arg", 2) in arg_roots(f, pv, t["args"][0]) and "canonical_spelling" not in arg_fields(pv, t["args"][0])]
         gets = [(bi, t) for bi, t in f.calls() if inst_of(t).endswith("word_map::{impl}::get_with_chars")]
         eqs = [(bi, t) for bi, t in f.calls() if def_of(t).endswith("cmp::PartialEq::eq")]
+        if not eqs and any(def_of(t).endswith("cmp::PartialEq::eq") for c in p.closures_of(f.name) for _, t in c.calls()) and len(nz) == 1 and len(gets) == 1:
+            arg_norm = ("arg", 2) in arg_roots(f, pv, nz[0][1]["args"][0])
+            lookup_norm = any(o[0] == "call" and o[1] == nz[0][0] for o in arg_roots(f, pv, gets[0][1]["args"][1]))
+            ck.decide(rule, "MutableDictionary::contains_exact_word", arg_norm and lookup_norm, f.span, "normalises the argument=%s; looks up the normalised form=%s; the comparison with the stored spelling sits in a closure (decided by R-C06-exact)" % (arg_norm, lookup_norm))
+            fs = None
         ok = len(nz) == 1 and len(gets) == 1 and bool(eqs)
         detail = "normalized=%d get_with_chars=%d comparisons=%d" % (len(nz), len(gets), len(eqs))
         if ok:
@@ -109,7 +114,8 @@ def _id(ck, p, byk):
             e = [bool_edges(f, bi) for bi, _ in eqs]
             ok = arg_norm and lookup_norm and cmp_ok
             detail += "; normalises the argument=%s; looks up the normalised form=%s; compares it with found.canonical_spelling=%s" % (arg_norm, lookup_norm, cmp_ok)
-        ck.decide(rule, "MutableDictionary::contains_exact_word", ok, f.span, detail)
+        if fs is not None:
+            ck.decide(rule, "MutableDictionary::contains_exact_word", ok, f.span, detail)
 
 
 def _accept(ck, p, byk):
@@ -356,8 +362,20 @@ def like_with_like(ck, p, byk, rule):
     ck.saw(f)
     pv = Prov(f)
     cmps = [(bi, t) for bi, t in f.calls() if (def_of(t) or "").endswith("cmp::PartialEq::eq") or (def_of(t) or "").endswith("cmp::PartialEq::ne")]
-    if not ck.anchor(rule, "spelling comparison in contains_exact_word", cmps):
+    host = f
+    if not cmps:
+        # the comparison may sit in a closure (get_with_chars(..).is_some_and(|entry| entry.spelling == query))
+        for c in p.closures_of(f.name):
+            cc = [(bi, t) for bi, t in c.calls() if (def_of(t) or "").endswith("cmp::PartialEq::eq") or (def_of(t) or "").endswith("cmp::PartialEq::ne")]
+            if cc:
+                cmps, host = cc, c
+                break
+    if not cmps:
+        ck.undecided(rule, "<MutableDictionary as Dictionary>::contains_exact_word:like-with-like", f.span, "no comparison of spellings found in contains_exact_word or its closures: form not recognised")
         return
+    parent, parent_pv = f, pv
+    if host is not f:
+        f, pv = host, Prov(host)
     # are entries normalised where they are stored?
     stored_norm = True
     n_store = 0
@@ -381,6 +399,16 @@ def like_with_like(ck, p, byk, rule):
             fields = set()
             names = _conversions(f, pv, a, fields=fields) & CHAR_NORMALISERS
             stored = "canonical_spelling" in fields
+            if f is not parent and not stored:
+                # a captured value: continue with what the parent did to it before capturing
+                from .c16 import _upvar_fields
+                ups = _upvar_fields(f, pv, a) | {u for o in arg_roots(f, pv, a) if o[0] == "call" and f.blocks[o[1]]["t"]["args"] for u in _upvar_fields(f, pv, f.blocks[o[1]]["t"]["args"][0])}
+                for b in parent.blocks:
+                    for sx in b["s"]:
+                        if sx["k"] == "assign" and sx["rv"]["k"] == "agg" and sx["rv"].get("agg") == "closure" and sx["rv"].get("name") == f.name:
+                            for idx in ups:
+                                if idx < len(sx["rv"]["ops"]):
+                                    names |= _conversions(parent, parent_pv, sx["rv"]["ops"][idx]) & CHAR_NORMALISERS
             sides.append((names, stored))
         key = "<MutableDictionary as Dictionary>::contains_exact_word:like-with-like"
         q = [n for n, st in sides if not st]
